@@ -153,7 +153,8 @@ def oracle (st : St) (op : List String) (obs : String) : List (String × String)
       let off := (specFind 8 tags 8).map (·.1) |>.getD 0
       let tail := match rgb with | some c => s!"rgb {joinNats (c.map UInt8.toNat)}" | none => "norgb"
       let want := s!"ok {off} {joinNats fieldsW} {tail}"
-      if " ".intercalate got = want then [] else [("framebuffer-exact", if rgb.isSome then "rgb" else "norgb")]
+      if " ".intercalate got = want then []
+      else [("framebuffer-exact", if st.client ≠ "" then s!"after-{st.client}" else if rgb.isSome then "rgb" else "norgb")]
   | ["C"] =>
     let kv := expCmd tags
     if obs = trimS s!"ok {kv.length} {kvStr kv}" then []
